@@ -140,6 +140,7 @@ func runC01(c *Ctx) {
 	var slowDoc string
 	evals := make([]int, len(items))
 	limit := 10 * time.Second
+	grace := 80 * time.Second
 	var nTimeouts int32
 	parallelItems(items, func(w, i int, it docItem) {
 		if atomic.LoadInt32(&nTimeouts) >= 3 {
@@ -173,12 +174,23 @@ func runC01(c *Ctx) {
 					out2 = b.Bytes()
 				}()
 			}()
+			timedOut := false
 			select {
 			case <-done:
 			case <-time.After(limit):
+				// slow or hanging?  A conversion that is merely slow (a large document on a loaded
+				// machine: heading id probing is quadratic in the number of equal headings) ends
+				// within the grace period; only one that does not is reported as a hang.
+				select {
+				case <-done:
+				case <-time.After(grace):
+					timedOut = true
+				}
+			}
+			if timedOut {
 				atomic.AddInt32(&nTimeouts, 1)
 				mu.Lock()
-				fails = append(fails, c01Fail{i, cfgs[k].Name(), "timeout", fmt.Sprintf("no result after %v", limit)})
+				fails = append(fails, c01Fail{i, cfgs[k].Name(), "timeout", fmt.Sprintf("no result after %v", limit+grace)})
 				mu.Unlock()
 				return // the stuck goroutine is abandoned
 			}
